@@ -54,14 +54,32 @@ FILL = {1: -127, 2: 0, 3: -32767, 4: -2147483647, 5: Fraction(0x7cf00000 & 0x7ff
         7: 255, 8: 65535, 9: 4294967295, 10: -9223372036854775806, 11: 18446744073709551614}
 
 
+# values placed into single elements: type limits, the default fill values and their neighbours, integers that a
+# double cannot hold; for float/double the BIT PATTERNS of the fill values, 0.5, -123.5 and 0.1 (all print exactly
+# at 7 / 15 digits and read back to the same bits; -0.0 and the largest finite values are left out: their decimal
+# text does not determine the bits)
+BOUNDARY = {1: [-128, 127, -127, -1], 3: [-32768, 32767, -32767, -1], 4: [-2 ** 31, 2 ** 31 - 1, -2147483647, -1],
+            5: [0x7cf00000, 0x3f000000, 0xc2f70000, 0x3dcccccd], 6: [0x479e000000000000, 0x3fe0000000000000, 0xc05ee00000000000, 0x3fb999999999999a],
+            7: [255, 254, 0], 8: [65535, 65534, 0], 9: [4294967295, 4294967294, 2 ** 31],
+            10: [2 ** 63 - 1, -2 ** 63, 2 ** 53 + 1, -9223372036854775806, -9223372036854775807, -(2 ** 53) - 1],
+            11: [2 ** 64 - 1, 2 ** 64 - 2, 2 ** 63, 2 ** 53 + 1, 2 ** 64 - 3]}
+
+
 # =============================================================================== small utilities
-def sh_(cmd, timeout=120, env=None, cwd=None):
-    """-> (rc, text); text decoded as latin-1 (the tools print attribute bytes raw); rc -9 = timeout"""
+def _limit_as():
+    import resource
+    resource.setrlimit(resource.RLIMIT_AS, (4 << 30, 4 << 30))
+
+
+def sh_(cmd, timeout=120, env=None, cwd=None, limit_mem=False):
+    """-> (rc, text); text decoded as latin-1 (the tools print attribute bytes raw); rc -9 = timeout.
+    limit_mem: 4 GiB address space (a damaged header can make a serial tool allocate/copy without bound)"""
     e = dict(os.environ)
     if env:
         e.update(env)
     try:
-        p = subprocess.run(cmd, stdout=subprocess.PIPE, stderr=subprocess.STDOUT, timeout=timeout, env=e, cwd=cwd)
+        p = subprocess.run(cmd, stdout=subprocess.PIPE, stderr=subprocess.STDOUT, timeout=timeout, env=e, cwd=cwd,
+                           preexec_fn=_limit_as if limit_mem else None)
         return p.returncode, p.stdout.decode('latin-1')
     except subprocess.TimeoutExpired as ex:
         return -9, (ex.stdout or b'').decode('latin-1') + '\n[timeout]'
@@ -291,6 +309,8 @@ INT_MAX = {1: 127, 3: 32767, 4: 2 ** 31 - 1, 7: 255, 8: 65535, 9: 2 ** 32 - 1, 1
 
 def gen_att_line(rng, f, varid, name, types, feats):
     t = rng.choice(types)
+    if t > 6 and rng.chance(2, 3):
+        t = rng.choice([1, 2, 3, 4, 5, 6])          # extended-type attributes break the ncmpigen round trip: keep them rarer
     if t == 2:
         n = rng.range(1, 9)
         vals = [rng.choice([rng.range(32, 126), rng.range(32, 126), rng.range(97, 122), rng.range(1, 255)]) for _ in range(n)]
@@ -565,7 +585,7 @@ def cmp_dump(cdl, c):
                 continue            # element past the end of the file: not defined by the format
             if tk[0] == 'fill':
                 if not is_fill(o, ov.type):
-                    probs.append(('data-fill', '%s[%d]: printed _ , oracle %s' % (nm, i, o)))
+                    probs.append(('data-fill:' + TYPE_NAME[ov.type], '%s[%d]: printed _ , oracle %s' % (nm, i, o)))
                     break
                 continue
             if tk[0] != 'num':
@@ -680,7 +700,8 @@ def byte_edit(rng, b, P, c, kind):
         if off + xs > len(b):
             return None
         b[off + xs - 1] ^= 1
-        return bytes(b), 'value: variable %d element %d last byte ^1 (file offset %d)' % (i, k, off + xs - 1)
+        return bytes(b), 'value: variable %d (%s) element %d last byte ^1 (file offset %d)' % (
+            i, TYPE_NAME[v.type], k, off + xs - 1), TYPE_NAME[v.type]
     if kind == 'attvalue':
         cand = [a for a in P['gatts'] if a['data_len'] > 0] + [a for v in P['vars'] for a in v['atts'] if a['data_len'] > 0]
         if not cand:
@@ -690,7 +711,8 @@ def byte_edit(rng, b, P, c, kind):
         k = rng.below(a['nelems'])
         o = a['data_off'] + k * xs + xs - 1
         b[o] ^= 1
-        return bytes(b), 'attribute value: element %d last byte ^1 (file offset %d)' % (k, o)
+        return bytes(b), 'attribute value (%s): element %d last byte ^1 (file offset %d)' % (
+            TYPE_NAME.get(a['type'], '?'), k, o), TYPE_NAME.get(a['type'], '?')
     if kind in ('varname', 'dimname', 'attname'):
         if kind == 'varname':
             cand = [v['name'] for v in P['vars']]
@@ -706,12 +728,12 @@ def byte_edit(rng, b, P, c, kind):
         old = b[o]
         new = ord('Q') if old != ord('Q') else ord('Z')
         b[o] = new
-        return bytes(b), '%s: byte at %d %r -> %r' % (kind, o, chr(old), chr(new))
+        return bytes(b), '%s: byte at %d %r -> %r' % (kind, o, chr(old), chr(new)), ''
     if kind == 'numrecs-field':
         if not c.has_unlim() or c.numrecs == 0:
             return None
         put_be(b, 4, P['nn'], c.numrecs - 1)
-        return bytes(b), 'numrecs field %d -> %d (data untouched)' % (c.numrecs, c.numrecs - 1)
+        return bytes(b), 'numrecs field %d -> %d (data untouched)' % (c.numrecs, c.numrecs - 1), ''
     return None
 
 
@@ -855,9 +877,9 @@ def mutate(rng, b0, P, c, kind):
         put_be(b, v['type_off'], 4, new)
         return bytes(b), 'variable nc_type at %d: %d -> %d' % (v['type_off'], v['type'], new)
     if kind == 'benign-free-space-junk':
-        if not c.vars or c.info['begin_var'] <= P['end']:
+        if not c.vars or min(len(b), c.info['begin_var']) <= P['end']:
             return None
-        for o in range(P['end'], c.info['begin_var']):
+        for o in range(P['end'], min(len(b), c.info['begin_var'])):
             b[o] = rng.range(1, 255)
         return bytes(b), 'free space [%d,%d) filled with non-zero bytes' % (P['end'], c.info['begin_var'])
     if kind == 'benign-trailing-junk':
@@ -916,7 +938,7 @@ def diff_verdict(rc, out):
     return 'error'
 
 
-def check_diff_pair(T, rng, co, base, a, b, klass, desc, np_):
+def check_diff_pair(T, rng, co, base, a, b, klass, desc, np_, tag=''):
     """tie 2 on one pair; the expectation is the oracle's logical_eq on the two files"""
     e = oeq(T, a, b)
     if e is None:
@@ -930,11 +952,11 @@ def check_diff_pair(T, rng, co, base, a, b, klass, desc, np_):
         co.counts.append(('%s np=%d %s: %s | %s -> %s' % (tool, n, klass, desc, base['script_sha'], got), True))
         co.stat('diff:%s:%s:%s' % (tool, klass, want))
         if got != want:
-            key = '%s:%s-expected:%s' % (tool, want, klass)
+            key = '%s:%s-expected:%s%s' % (tool, want, klass, (':' + tag) if tag else '')
             co.viol.append(('%s reports "%s" for a pair whose logical_eq is %s (%s: %s)' %
                             (tool, got, e['logical_eq'], klass, desc),
                             dict(base, pair=klass, desc=desc, tool=tool, np=n, rc=rc, output=out[-1500:],
-                                 oracle=e, file_a=open(a, 'rb').read().hex()[:20000], file_b=open(b, 'rb').read().hex()[:20000]),
+                                 oracle=e, file_a=open(a, 'rb').read().hex()[:60000], file_b=open(b, 'rb').read().hex()[:60000]),
                             key))
     return e
 
@@ -955,17 +977,26 @@ def check_valid_batch(T, co, base, items):
             continue
         dec, strict, lay = verd[p]
         want = 'accept' if (dec and strict and lay) else 'reject'
-        rc, vout = sh_([T.ncvalidator, p], timeout=60)
-        got = 'accept' if rc == 0 else ('reject' if rc == 1 else 'error(rc=%d)' % rc)
+        if want == 'reject' and klass == 'library-written':
+            co.viol.append(('the library wrote a file that the format oracle rejects (decode=%d strict_valid=%d layout_ok=%d)' %
+                            (dec, strict, lay), dict(base, klass=klass, desc=desc, file=open(p, 'rb').read().hex()[:60000]),
+                            'library:writes-invalid-file'))
+            continue
+        if want == 'reject' and klass in ('tight-layout', 'free-layout'):
+            co.viol.append(('encode_with_layout produced a file that file_valid rejects (decode=%d strict_valid=%d layout_ok=%d): '
+                            'contradicts encode_with_layout_valid_partial' % (dec, strict, lay), dict(base, klass=klass, desc=desc), None))
+            continue
+        rc, vout = sh_([T.ncvalidator, p], timeout=20, limit_mem=True)
+        got = 'accept' if rc == 0 else ('reject' if rc == 1 else ('hang' if rc == -9 else 'crash(rc=%d)' % rc))
         nontrivial = not klass.startswith('benign') or want == 'accept'
         co.counts.append(('ncvalidator %s: %s | %s -> %s' % (klass, desc, base['script_sha'], got), nontrivial))
         co.stat('valid:%s:%s' % (klass, want))
         if got != want:
             why = 'decode=%d strict_valid=%d layout_ok=%d' % (dec, strict, lay)
-            key = 'ncvalidator:%ss:%s' % (got if got in ('accept', 'reject') else 'error', klass)
+            key = 'ncvalidator:%ss:%s' % (got.split('(')[0], klass)
             co.viol.append(('ncvalidator %ss a file the format oracle %ss (%s; %s: %s)' % (got, want, why, klass, desc),
                             dict(base, klass=klass, desc=desc, oracle=why, rc=rc, output=vout[-1500:],
-                                 file=open(p, 'rb').read().hex()[:40000]), key))
+                                 file=open(p, 'rb').read().hex()[:60000]), key))
 
 
 def check_dump(T, co, base, path, c, what, feats):
@@ -987,7 +1018,7 @@ def check_dump(T, co, base, path, c, what, feats):
                 continue
             seen.add(k)
             co.viol.append(('ncmpidump output disagrees with the decoded file (%s): %s' % (what, msg),
-                            dict(base, what=what, problem=msg, cdl=out[-6000:], file=open(path, 'rb').read().hex()[:40000]),
+                            dict(base, what=what, problem=msg, cdl=out[-6000:], file=open(path, 'rb').read().hex()[:60000]),
                             'ncmpidump:' + k))
     rc, out = sh_([T.ncoffsets, '-s', '-g', path], timeout=60)
     if rc != 0:
@@ -998,7 +1029,7 @@ def check_dump(T, co, base, path, c, what, feats):
     co.stat('offsets:' + what)
     for k, msg in probs:
         co.viol.append(('ncoffsets output disagrees with the decoded file (%s): %s' % (what, msg),
-                        dict(base, what=what, problem=msg, output=out[-3000:], file=open(path, 'rb').read().hex()[:40000]),
+                        dict(base, what=what, problem=msg, output=out[-3000:], file=open(path, 'rb').read().hex()[:60000]),
                         'ncoffsets:' + k))
 
 
@@ -1018,7 +1049,7 @@ def check_regen(T, co, base, path, c, feats):
     co.counts.append(('ncmpigen round trip | %s feats=%s' % (base['script_sha'], ','.join(tags)), True))
     co.stat('regen')
     if rc != 0 or not os.path.exists(gen):
-        key = 'ncmpigen:rejects-dump' + (':ext-type-att-suffix' if 'att-ext-type' in feats else '')
+        key = regen_key('rejects', feats, [])
         co.viol.append(('ncmpigen cannot read the CDL that ncmpidump printed for a library-written file (rc %d): %s' %
                         (rc, gout.strip()[-200:]), dict(base, cdl=out[-6000:], output=gout[-1500:], features=tags), key))
         return
@@ -1026,49 +1057,119 @@ def check_regen(T, co, base, path, c, feats):
     if e is None or not e['logical_eq']:
         cg = odump(T, gen)
         diffs = describe_diff(c, cg)
-        key = 'ncmpigen:content-differs'
-        if 'att-text-trailing-nul' in feats and all('attribute' in x for x in diffs):
-            key += ':att-text-trailing-nul'
-        elif 'att-int64-beyond-2^53' in feats and all('attribute' in x for x in diffs):
-            key += ':att-int64-beyond-2^53'
-        elif 'data-char-trailing-nul' in feats:
-            key += ':char-data'
-        co.viol.append(('dump -> ncmpigen does not reproduce the logical content: %s' % '; '.join(diffs[:4]),
-                        dict(base, cdl=out[-6000:], oracle=e, differences=diffs[:20], features=tags,
-                             file=open(path, 'rb').read().hex()[:40000]), key))
+        key = regen_key('differs', feats, diffs)
+        co.viol.append(('dump -> ncmpigen does not reproduce the logical content: %s' % '; '.join(t for _, t in diffs[:4]),
+                        dict(base, cdl=out[-6000:], oracle=e, differences=[t for _, t in diffs[:20]], features=tags,
+                             file=open(path, 'rb').read().hex()[:60000]), key))
+    else:
+        co.stat('regen:identical')
 
 
 def describe_diff(a, b):
+    """-> list of (category, text); category in format|numrecs|dims|att|var-decl|data:<typename>"""
     out = []
     if a.fmt != b.fmt:
-        out.append('format %d vs %d' % (a.fmt, b.fmt))
+        out.append(('format', 'format %d vs %d' % (a.fmt, b.fmt)))
     if a.numrecs != b.numrecs:
-        out.append('numrecs %d vs %d' % (a.numrecs, b.numrecs))
+        out.append(('numrecs', 'numrecs %d vs %d' % (a.numrecs, b.numrecs)))
     if a.dims != b.dims:
-        out.append('dimensions %r vs %r' % (a.dims, b.dims))
+        out.append(('dims', 'dimensions %r vs %r' % (a.dims, b.dims)))
 
     def atts(w, x, y):
         if len(x) != len(y):
-            out.append('%s: %d vs %d attributes' % (w, len(x), len(y)))
+            out.append(('att', '%s: %d vs %d attributes' % (w, len(x), len(y))))
             return
         for p, q in zip(x, y):
             if (p.name, p.type, p.nelems, p.data) != (q.name, q.type, q.nelems, q.data):
-                out.append('%s attribute %r: (type %d, n %d, %s) vs (type %d, n %d, %s)' %
-                           (w, p.name, p.type, p.nelems, p.data.hex(), q.type, q.nelems, q.data.hex()))
+                out.append(('att', '%s attribute %r: (type %d, n %d, %s) vs (type %d, n %d, %s)' %
+                            (w, p.name, p.type, p.nelems, p.data.hex(), q.type, q.nelems, q.data.hex())))
     atts('global', a.gatts, b.gatts)
     if len(a.vars) != len(b.vars):
-        out.append('%d vs %d variables' % (len(a.vars), len(b.vars)))
+        out.append(('var-decl', '%d vs %d variables' % (len(a.vars), len(b.vars))))
         return out
     for p, q in zip(a.vars, b.vars):
         if (p.name, p.type, p.dimids) != (q.name, q.type, q.dimids):
-            out.append('variable %r/%r declaration' % (p.name, q.name))
+            out.append(('var-decl', 'variable %r/%r declaration' % (p.name, q.name)))
         atts('variable %r' % p.name, p.atts, q.atts)
         if p.data != q.data:
             k = next((i for i, (x, y) in enumerate(zip(p.data, q.data)) if x != y), min(len(p.data), len(q.data)))
-            out.append('variable %r data: %d vs %d elements, first difference at %d (%s vs %s)' %
-                       (p.name, len(p.data), len(q.data), k, p.data[k].hex() if k < len(p.data) else '-',
-                        q.data[k].hex() if k < len(q.data) else '-'))
-    return out or ['(no difference found by the describer)']
+            out.append(('data:' + TYPE_NAME.get(p.type, '?'),
+                        'variable %r data: %d vs %d elements, first difference at %d (%s vs %s)' %
+                        (p.name, len(p.data), len(q.data), k, p.data[k].hex() if k < len(p.data) else '-',
+                         q.data[k].hex() if k < len(q.data) else '-')))
+    return out or [('none', '(no difference found by the describer)')]
+
+
+NAMED_ESC = (8, 12, 10, 13, 9, 11, 92, 39, 34)
+
+
+def char_features(c):
+    """features of char variables that matter for the CDL text (ncmpidump prints one string per row of the
+    last dimension, trailing NULs stripped, non-printable bytes as 3-digit octal escapes, a row is split after
+    every newline)"""
+    feats = set()
+    for v in c.vars:
+        if v.type != 2 or not v.data:
+            continue
+        shape = c.shape(v)
+        ncols = shape[-1] if shape else 1
+        if len(shape) == 1 and c.isrec(v):
+            ncols = c.numrecs
+        data = b''.join(v.data)
+        for i in range(0, len(data), max(ncols, 1)):
+            r = data[i:i + ncols]
+            rs = r.rstrip(b'\0')
+            if b'\0' in rs:
+                feats.add('data-char-embedded-nul')
+            if r != rs:
+                feats.add('data-char-trailing-nul')
+            if b'\n' in r and len(shape) > 1:
+                feats.add('data-char-newline')
+            for j in range(len(rs) - 1):
+                if not (32 <= rs[j] <= 126) and rs[j] not in NAMED_ESC and rs[j + 1] in b'01234567':
+                    feats.add('data-char-octal-escape-then-digit')
+    return feats
+
+
+def data_features(c):
+    """features of numeric data that matter for the dump -> generate round trip"""
+    feats = set()
+    for v in c.vars:
+        if v.type in (7, 8, 9, 10, 11):
+            vals = [pyval(x) for x in v.vals]
+            if any(x == FILL[v.type] for x in vals):
+                feats.add('data-fill-value-ext-type')        # printed as "_"
+            if v.type in (10, 11) and any(isinstance(x, int) and abs(x) > 2 ** 53 for x in vals):
+                feats.add('data-int64-beyond-2^53')
+    return feats
+
+
+def regen_key(kind, feats, diffs):
+    if kind == 'rejects':
+        if 'att-ext-type' in feats:
+            return 'ncmpigen:rejects-dump:ext-type-att-suffix'
+        if 'data-char-newline' in feats:
+            return 'ncmpigen:rejects-dump:char-data-newline'
+        return 'ncmpigen:rejects-dump'
+    cats = {k for k, _ in diffs}
+    if cats == {'att'}:
+        for f in ('att-text-trailing-nul', 'att-int64-beyond-2^53', 'att-text-newline'):
+            if f in feats:
+                return 'ncmpigen:content-differs:' + f
+        return 'ncmpigen:content-differs:att'
+    if cats == {'data:char'}:
+        for f in ('data-char-newline', 'data-char-octal-escape-then-digit', 'data-char-embedded-nul'):
+            if f in feats:
+                return 'ncmpigen:content-differs:' + f
+        return 'ncmpigen:content-differs:char-data'
+    if cats and all(k.startswith('data:') for k in cats) and 'data:char' not in cats:
+        if 'data-fill-value-ext-type' in feats:
+            return 'ncmpigen:content-differs:fill-value-ext-type'
+        if 'data-int64-beyond-2^53' in feats and cats <= {'data:int64', 'data:uint64'}:
+            return 'ncmpigen:content-differs:int64-beyond-2^53'
+        if len(cats) == 1:
+            return 'ncmpigen:content-differs:' + next(iter(cats))
+    return 'ncmpigen:content-differs'
 
 
 def run_case(T, seed, idx, tier):
@@ -1100,17 +1201,14 @@ def run_case(T, seed, idx, tier):
     co.stat('family:' + family)
     co.stat('format:%d' % c.fmt)
     if c.info.get('decode') != 1 or c.info.get('content') == 'skipped':
-        co.viol.append(('the format oracle cannot decode a library-written file', dict(base, file=bA.hex()[:40000]),
+        co.viol.append(('the format oracle cannot decode a library-written file', dict(base, file=bA.hex()[:60000]),
                         'library:writes-undecodable-file'))
         return co
     if family == 'full' and c.info.get('data_ok') != 1:
         co.viol.append(('library-written file is shorter than its variables (data_ok = 0) although every variable was written',
-                        dict(base, file=bA.hex()[:40000]), 'library:short-file'))
+                        dict(base, file=bA.hex()[:60000]), 'library:short-file'))
     P = walk_header(bA)
-    if any(v.type == 2 and any(e == b'\0' for e in v.data) for v in c.vars):
-        feats.add('data-char-trailing-nul')
-    if any(b'\n' in b''.join(v.data) for v in c.vars if v.type == 2):
-        feats.add('data-char-newline')
+    feats |= char_features(c) | data_features(c)
     base['features'] = sorted(feats)
     for ft in feats:
         co.stat('feature:' + ft)
@@ -1143,6 +1241,30 @@ def run_case(T, seed, idx, tier):
             check_dump(T, co, base, Vp, cv, what, feats)
     check_diff_pair(T, rng, co, base, A, A, 'identical', 'the same file twice', rng.range(1, 3))
 
+    # ---- boundary values set in single elements (content-level edit, oracle encoder): tie 3 + 4 on that file
+    if family == 'full' and c.info.get('data_ok') == 1 and rng.chance(1, 2):
+        cb = copy.deepcopy(c)
+        changed = []
+        for vi, v in enumerate(cb.vars):
+            if not v.data or v.type == 2:
+                continue
+            val = rng.choice(BOUNDARY[v.type])
+            k = rng.below(len(v.data))
+            v.data[k] = (val % (1 << (8 * ELSIZE[v.type]))).to_bytes(ELSIZE[v.type], 'big')
+            changed.append('%s[%d]=%s' % (v.name.decode('latin-1'), k, val if v.type not in (5, 6) else hex(val)))
+        if changed:
+            Xp = os.path.join(d, 'boundary.nc')
+            try:
+                oencode(T, cb, rand_layout(rng, cb), Xp)
+                cx = odump(T, Xp)
+                fx = set(f for f in feats if f.startswith('att-')) | char_features(cx) | data_features(cx) | {'data-boundary-values'}
+                bb = dict(base, boundary=changed, features=sorted(fx))
+                check_dump(T, co, bb, Xp, cx, 'boundary-values', fx)
+                check_regen(T, co, bb, Xp, cx, fx)
+                valid_items.append((Xp, 'free-layout', 'boundary values'))
+            except RuntimeError as e:
+                co.viol.append(('the free-layout encoder refused a content with boundary values: %s' % e, dict(base), None))
+
     # ---- layout variant made by the library itself (alignment hints, _enddef free space)
     if family == 'full' and (tier != 'quick' or rng.chance(1, 2)):
         t2 = with_layout_opts(text, rng)
@@ -1163,6 +1285,7 @@ def run_case(T, seed, idx, tier):
         if done >= nedit:
             break
         Ep = os.path.join(d, 'edit-%s.nc' % kind)
+        tag = ''
         if kind in ('format', 'numrecs', 'dimlen'):
             if c.info.get('data_ok') != 1:
                 continue
@@ -1179,10 +1302,10 @@ def run_case(T, seed, idx, tier):
             ed = byte_edit(rng, bA, P, c, kind)
             if ed is None:
                 continue
-            eb, desc = ed
+            eb, desc, tag = ed
             open(Ep, 'wb').write(eb)
         done += 1
-        e = check_diff_pair(T, rng, co, base, A, Ep, 'edit-' + kind, desc, rng.range(1, 3))
+        e = check_diff_pair(T, rng, co, base, A, Ep, 'edit-' + kind, desc, rng.range(1, 3), tag=tag)
         if e is not None and e['logical_eq']:
             co.viol.append(('a single logical edit (%s) left logical_eq true: the edit generator or the oracle is wrong' % desc,
                             dict(base, desc=desc), None))
@@ -1204,7 +1327,8 @@ def run_case(T, seed, idx, tier):
         open(Mp, 'wb').write(mb)
         valid_items.append((Mp, kind, desc))
     check_valid_batch(T, co, base, valid_items)
-    shutil.rmtree(d, ignore_errors=True)
+    if not os.environ.get('C20_KEEP'):
+        shutil.rmtree(d, ignore_errors=True)
     return co
 
 
@@ -1244,8 +1368,9 @@ def run(ctx):
     if missing:
         ctx.violation('utilities missing from the build: %s' % missing, dict(missing=missing, relation='build'), no_input=True)
         return
-    ncases = int(os.environ.get('C20_CASES', '0')) or (26 if ctx.tier == 'quick' else 260)
+    ncases = int(os.environ.get('C20_CASES', '0')) or (64 if ctx.tier == 'quick' else 380)
     stats = {}
+    occ = {}
     with cf.ThreadPoolExecutor(max_workers=8) as ex:
         futs = [ex.submit(run_case, T, ctx.seed, i, ctx.tier) for i in range(ncases)]
         for i, fu in enumerate(futs):
@@ -1261,10 +1386,15 @@ def run(ctx):
             for k, n in co.stats.items():
                 stats[k] = stats.get(k, 0) + n
             for what, rep, key in co.viol:
+                k = key or ('internal:' + what[:50])
+                occ[k] = occ.get(k, 0) + 1
+                if occ[k] > 1:
+                    continue            # one VIOLATION / KNOWN-FINDING line and one replay file per key
                 if key is None:
-                    ctx.violation(what, dict(rep, relation='corr_C20_generator'), no_input=True)
+                    ctx.violation(what, dict(rep, relation='corr_C20_generator_or_oracle'), no_input=True)
                 else:
                     ctx.violation(what, rep, key=key)
+    ctx.cov['disagreements_by_key'] = dict(sorted(occ.items()))
     ctx.cov['rule'] = ('per case: one generated session run on the real library (family full = every element written, '
                        'attributes of all types, optional redef; family rw = the C01 read/write sessions) -> file A; then '
                        'ncvalidator on A / oracle re-encodings / ~19 header mutation classes, cdfdiff+ncmpidiff on identical, '
@@ -1276,9 +1406,39 @@ def run(ctx):
 
 
 def replay(ctx, d):
+    """re-run one recorded disagreement: from the recorded file bytes when they are complete, else the whole case"""
     lib = C.libdir()
     T, missing = setup_tools(lib, oracle_exe())
-    co = run_case(T, d.get('seed', ctx.seed), d['case'], d.get('tier', ctx.tier))
+    w = os.path.join(T.d, 'replay')
+    os.makedirs(w, exist_ok=True)
+
+    def put(name, hx_):
+        p = os.path.join(w, name)
+        open(p, 'wb').write(bytes.fromhex(hx_))
+        return p
+    if d.get('tool') in ('cdfdiff', 'ncmpidiff') and len(d.get('file_a', '')) < 60000 and len(d.get('file_b', '')) < 60000 and d.get('file_a'):
+        a, b = put('a.nc', d['file_a']), put('b.nc', d['file_b'])
+        e = oeq(T, a, b)
+        rc, out = mpi(int(d.get('np', 1)), getattr(T, d['tool']), [a, b])
+        got = diff_verdict(rc, out)
+        print('oracle:', e, '| %s np=%s: rc %d -> %s' % (d['tool'], d.get('np', 1), rc, got))
+        print(out[-1500:])
+        bad = e is None or got != ('same' if e['logical_eq'] else 'differ')
+        print('REPLAY: %s' % ('disagreement reproduced' if bad else 'tool and oracle agree now'))
+        return 1 if bad else 0
+    if d.get('klass') and d.get('file') and len(d['file']) < 60000:
+        p = put('m.nc', d['file'])
+        rc, out = sh_([T.oracle, 'valid', p])
+        t = out.split()
+        want = 'accept' if t[1:4] == ['1', '1', '1'] else 'reject'
+        rc, vout = sh_([T.ncvalidator, p], timeout=20, limit_mem=True)
+        got = 'accept' if rc == 0 else ('reject' if rc == 1 else 'rc=%d' % rc)
+        print('oracle (decode strict_valid layout_ok):', t[1:4], '->', want, '| ncvalidator:', got)
+        print(vout[-1500:])
+        print('REPLAY: %s' % ('disagreement reproduced' if got != want else 'tool and oracle agree now'))
+        return 1 if got != want else 0
+    co = run_case(T, int(d.get('seed', ctx.seed)), int(d['case']), d.get('tier', ctx.tier))
+    hit = [x for x in co.viol if x[2] == d.get('key')]
     for what, rep, key in co.viol:
-        print('REPLAY:', key, what)
-    return 1 if co.viol else 0
+        print('REPLAY:', key, what[:300])
+    return 1 if hit else 0
